@@ -102,6 +102,24 @@ def session_switch_sequences(ids=('', 'a', 'ab', 'abc', 'b', '254700', '25470012
     return out
 
 
+PUNCT_IDS = ('a:b', 'a_b', 'a*b', 'a?b', 'a|b', 'a<b', 'a>b', 'a"b', 'a\\b', 'a b', 'a-b', 'a+b', 'a%b', 'a#b')
+
+
+def punctuation_sequences():
+    """session ids, and keys, that differ in ONE punctuation character are different ids / keys: every ordered pair, one handle"""
+    def O(op, t=0, s='', k='', v='', b=False):
+        return dict(op=op, t=t, s=s, k=k, v=v, b=b)
+    out, n = session_switch_sequences(PUNCT_IDS), 0
+    for t in (16, 32):
+        for k1 in PUNCT_IDS:
+            for k2 in PUNCT_IDS:
+                if k1 != k2:
+                    n += 1
+                    out.append([O('setprefix', t=t), O('setsession', s='s1'), O('put', k=k1, v='p%da' % n), O('get', k=k2), O('put', k=k2, v='p%db' % n),
+                                O('get', k=k1), O('get', k=k2), O('dump')])
+    return out
+
+
 def replay(pid, path, mine):
     case = json.load(open(path))
     d = core.scratch('verif-kvr-')
